@@ -37,6 +37,8 @@ type RevAPI struct {
 	Note    func(int) `notify:"true"`
 	// Stubborn's client-side handler does not look at its context: it outlives the connection it was called on
 	Stubborn func(context.Context, int) (int, error)
+	// Ticks: a reverse subscription (the client-side handler returns a channel)
+	Ticks func(context.Context, int) (<-chan int, error)
 	// IdentRetry: a retry-tagged reverse method without a context parameter
 	IdentRetry func(int) (int, error) `retry:"true" rpc_method:"Rev.Ident"`
 }
@@ -46,10 +48,24 @@ type ctl struct {
 	entered map[int]int
 	rel     map[int]chan struct{}
 	how     map[int]string // why a Slow handler returned: released | cancelled | timeout
+	feeds   map[int]chan int
 }
 
 func newCtl() *ctl {
 	return &ctl{entered: map[int]int{}, rel: map[int]chan struct{}{}, how: map[int]string{}}
+}
+
+// feed returns the channel through which the scenario tells the Ticks handler of tok what to send next.
+func (c *ctl) feed(tok int) chan int {
+	c.mu.Lock()
+	defer c.mu.Unlock()
+	if c.feeds == nil {
+		c.feeds = map[int]chan int{}
+	}
+	if c.feeds[tok] == nil {
+		c.feeds[tok] = make(chan int, 16)
+	}
+	return c.feeds[tok]
 }
 
 func (c *ctl) setHow(tok int, h string) {
@@ -135,6 +151,24 @@ func (r *RevH) Stubborn(ctx context.Context, arg int) (int, error) {
 	case <-time.After(8 * time.Second):
 	}
 	return ident(r.ID, arg), nil
+}
+
+// Ticks returns a channel on which it sends whatever the scenario feeds it, whether or not its context is
+// still live (a producer that does not watch its context), until the feed is closed.
+func (r *RevH) Ticks(ctx context.Context, arg int) (<-chan int, error) {
+	r.C.enter(arg)
+	out := make(chan int)
+	feed := r.C.feed(arg)
+	go func() {
+		defer close(out)
+		for v := range feed {
+			select {
+			case out <- v:
+			case <-time.After(3 * time.Second):
+			}
+		}
+	}()
+	return out, nil
 }
 
 // Note is the target of notify-tagged reverse calls.
@@ -307,6 +341,23 @@ func (s *RS) Run(ctx context.Context, sp Spec) (Out, error) {
 			return rc.Nest
 		case "Stubborn":
 			return rc.Stubborn
+		case "Ticks":
+			// subscribe and return the first value
+			return func(ctx context.Context, a int) (int, error) {
+				ch, err := rc.Ticks(ctx, a)
+				if err != nil {
+					return 0, err
+				}
+				select {
+				case v, ok := <-ch:
+					if !ok {
+						return 0, errors.New("reverse subscription closed before its first value")
+					}
+					return v, nil
+				case <-time.After(4 * time.Second):
+					return 0, errors.New("no value on the reverse subscription within 4s")
+				}
+			}
 		}
 		return rc.Ident
 	}
@@ -888,6 +939,10 @@ func Run(d *fw.Driver, res *fw.Result, seed int64, thorough bool) error {
 		if err := StaleAnswer(d, res, seed, k, base); err != nil {
 			return err
 		}
+	}
+	base += 1000
+	if err := ReverseSubAfterLoss(res, seed, base); err != nil {
+		return err
 	}
 	if err := FormatterOrder(res); err != nil {
 		return err
